@@ -9,6 +9,7 @@ qm_c14 — driver for M-Sys/resources (property C14). State: a `Sys`. Requests (
   send SENDER TARGET VAL          → <delta>                 VAL ::= o | (r N) | (t VAL*) | (f VAL*)
   spawn CALLER (VAL*) VAL         → <delta>
   terminate P                     → <delta>
+  exited P                        → <delta>                 (ProcessExited{P} handled; repair of F10)
   results AWAITER ((P R)*)        → <delta>                 (R = 0 None | 1 Some(Ok) | 2 Some(Err))
   state                           → own=… open=… next=… pend=… term=… rep=…
 <delta> ::= wf=B x=(P:KIND:RID …) c=(R …) out=(CMD …) faults=N own=(R:P …) open=(R …) next=N pend=N pers=(P …)
@@ -82,6 +83,7 @@ def eventOfReq : List Sx → Option Event
     | some c, some caps, some arg => some (.spawn c caps arg)
     | _, _, _ => none
   | [.atom "terminate", p] => p.asNat.map Event.terminate
+  | [.atom "exited", p] => p.asNat.map Event.exited
   | [.atom "results", a, .list rs] =>
     match a.asNat, resultsOfSx rs with
     | some a, some rs => some (.results a rs)
@@ -111,7 +113,7 @@ def renderOwn (m : Own) : String :=
 def renderState (s : Sys) : String :=
   s!"own={renderOwn s.env.owner} open={renderNats (sortNat s.env.backend.openSet)} " ++
   s!"next={s.env.backend.nextRid} pend={s.env.backend.pending.length} " ++
-  s!"pers={renderNats (sortNat s.env.persistent)}"
+  s!"pers={renderNats (sortNat s.env.persistent)} exited={renderNats (sortNat s.env.exited)}"
 
 def renderDelta (s s' : Sys) (ok : Bool) : String :=
   let x := s'.env.backend.executed.drop s.env.backend.executed.length
